@@ -64,7 +64,16 @@ def execute(L, R, a):
     return rec, rec2
 
 
-def execute_agg(L, by, hseed=None):
+def _tuple_keys(d, by):
+    """Concretisation of group-key values as tuples: v -> (2020, v); a missing key stays None."""
+    return {k: ((2020, v) if (k in by and v is not None) else v) for k, v in d.items()}
+
+
+def _untuple(v):
+    return v[1] if isinstance(v, tuple) and len(v) == 2 and v[0] == 2020 else v
+
+
+def execute_agg(L, by, hseed=None, tup=False):
     """With rng: a history on one grouped object - aggregate, change group membership in place without changing
     the length (edit a key, replace an item, reverse), aggregate again; the second result is judged on the items
     as they are now."""
@@ -75,7 +84,9 @@ def execute_agg(L, by, hseed=None):
     if rng is not None:
         rec["history"] = {"L0": L, "seed": hseed}
     try:
-        dl = di.ListOfDicts([to_py(x) for x in L])
+        dl = di.ListOfDicts([(_tuple_keys(to_py(x), by) if tup else to_py(x)) for x in L])
+        if tup:
+            rec["a"] = dict(rec["a"], key_values="tuples")
         if rng is not None and len(dl):
             g = dl.group_by(*by)
             g.aggregate(n=len)
@@ -96,7 +107,7 @@ def execute_agg(L, by, hseed=None):
         out = dl.group_by(*by).aggregate(n=len, ids=lambda g: [x.lt for x in g]) if "after" not in rec["a"] else \
             dl.aggregate(n=len, ids=lambda g: [x.lt for x in g])
         rec["cls"] = observe_cls(out) and all(x["n"] == len(x["ids"]) for x in out)
-        rec["keys"] = [[-1 if x[c] is None else x[c] for c in by] for x in out]
+        rec["keys"] = [[-1 if x[c] is None else _untuple(x[c]) for c in by] for x in out]
         rec["groups"] = [list(x["ids"]) for x in out]
     except Exception as e:
         rec["err"] = type(e).__name__ + ": " + str(e)[:100]
@@ -149,7 +160,7 @@ def run(ctx):
             ctx.count((json.dumps(L), json.dumps(R), kind, renamed), len(R) >= 2)
     for l in rights:
         for by in (["k"], ["j"], ["k", "j"], ["j", "k"]):
-            records.append(execute_agg(litems(l), by))
+            records.append(execute_agg(litems(l), by, tup=rng.random() < 0.4))
             records.append(execute_agg(litems(l), by, rng.randrange(10**6)))
             records.append(execute_split(litems(l), by))
             count["aggregate"] = count.get("aggregate", 0) + 2
@@ -176,7 +187,8 @@ def replay(ctx, rp):
             recs = [execute_split(rec0["L"], rec0["a"]["by"])]
         elif rec0["a"]["kind"] == "aggregate":
             h = rec0.get("history")
-            recs = [execute_agg(h["L0"], rec0["a"]["by"], h["seed"]) if h else execute_agg(rec0["L"], rec0["a"]["by"])]
+            recs = [execute_agg(h["L0"], rec0["a"]["by"], h["seed"]) if h else
+                    execute_agg(rec0["L"], rec0["a"]["by"], tup=rec0["a"].get("key_values") == "tuples")]
         else:
             a = dict(rec0["a"])
             if a["kind"] == "right_unchanged":
